@@ -10,7 +10,7 @@ import hashlib
 
 import z3
 
-from .values import (T_LD, T_LPDD, T_PDD, ByteSeq, Con, Data, DataList, PairList, bool_z, bytes_z, head_of, int_z, is_concrete,
+from .values import (T_LD, T_LPDD, T_PDD, ByteSeq, Con, Data, DataList, PairList, bytes_z, head_of, int_z, is_concrete,
                      norm_bool, norm_bytes, norm_int, payload_z, sort_of)
 
 
@@ -331,13 +331,22 @@ DROP_UNROLL = 256
 @bi("dropList")
 def _drop(ctx, A):
     n, l = arg(A[0], "integer"), arg_kind(A[1], "list")
-    if not isinstance(n, int):
-        if not l.v:
+    if not isinstance(n, int):  # symbolic count: only on a list with a concrete spine, one alternative per suffix
+        if l.ty in (T_LD, T_LPDD):
+            sufs, e = [l.v], l.v
+            while head_of(e) in ("dcons", "pcons"):
+                e = e.arg(e.num_args() - 1)
+                sufs.append(e)
+            if head_of(e) is None:
+                raise Undecided("dropList with a symbolic count on a symbolic list")
+        else:
+            sufs = [l.v[k:] for k in range(len(l.v) + 1)]
+        if len(sufs) > DROP_UNROLL:
+            raise Undecided("dropList with a symbolic count on a long list")
+        last = len(sufs) - 1
+        if last == 0:
             return l
-        if l.ty in (T_LD, T_LPDD) or len(l.v) > DROP_UNROLL:
-            raise Undecided("dropList with a symbolic count")
-        n = int_z(n)  # concrete spine: one alternative per possible count
-        return [(n <= 0, l)] + [(n == k, Con(l.ty, l.v[k:])) for k in range(1, len(l.v))] + ([(n >= len(l.v), Con(l.ty, ()))] if l.v else [])
+        return [(n <= 0, l)] + [(n == k, Con(l.ty, sufs[k])) for k in range(1, last)] + [(n >= last, Con(l.ty, sufs[last]))]
     if l.ty not in (T_LD, T_LPDD):
         return Con(l.ty, l.v[max(n, 0):])
     nil, cons, tl = ("dnil", "dcons", DataList.dtail) if l.ty == T_LD else ("pnil", "pcons", PairList.ptail)
